@@ -228,6 +228,43 @@ class BuilderGen:
         nops = sum(1 for t in toks if t in ("N", "J", "T", "G", "S", "R", "H", "L"))
         return "twoway", nops, " ".join(toks)
 
+    def shared_return(self):
+        """Jumps A < C < B: A and B have a long true branch to the SAME label (in front of a return), C between them has a long
+        true branch to a label in front of a load (its bridge is a long jump); sometimes a second C. Early returns inserted
+        for B may be reused by A only if nothing moved in between."""
+        rng = self.rng
+        pa = 1
+        pc = rng.randint(5, 160)
+        pb = rng.randint(pc + 3, pc + rng.choice([20, 60, 100, 200]))
+        tx = pc + 1 + rng.choice([256, 257, 258, 300, 400])
+        tr = max(pb + 1 + rng.choice([256, 257, 300]), tx + 4)
+        jumps = {pa: 2, pc: 3, pb: 2}              # position -> label
+        labels_at = {tr: [2], tx: [3]}
+        nlab = 2
+        if rng.random() < 0.4:
+            pc2 = rng.randint(pa + 1, pb - 1)
+            if pc2 not in jumps:
+                nlab = 3
+                jumps[pc2] = 4
+                tx2 = max(pc2 + 1 + rng.choice([256, 300]), 0)
+                while tx2 in (tr, tx, tr - 1, tx - 1, tr + 1, tx + 1):
+                    tx2 += 1
+                labels_at.setdefault(tx2, []).append(4)
+        n = max(labels_at) + 3
+        at = {tr - 1: "R %d" % (0x50000 + 21), tr: "R %d" % 0x7fff0000, tx - 1: "R %d" % (0x50000 + 22)}
+        ops = ["N"] * nlab + ["L 0"]
+        for p in range(1, n):
+            for lab in labels_at.get(p, []):
+                ops.append("S %d" % lab)
+            if p in jumps:
+                ops.append("T %s %d %d" % (rng.choice(CONDS), rng.choice([0, 1, 2, 3, 7]), jumps[p]))
+            else:
+                ops.append(at.get(p, "%s %d" % (rng.choice("HL"), rng.randint(0, 5))))
+        ops.append("R %d" % 0x30000)
+        toks = " ".join(ops).split()
+        nops = sum(1 for t in toks if t in ("N", "J", "T", "G", "S", "R", "H", "L"))
+        return "shared_return", nops, " ".join(toks)
+
     def events(self, count):
         rng = self.rng
         evs = []
@@ -323,6 +360,31 @@ class PolicyGen:
             groups.append(dict(action=self.action(), names=list(names_all), nwc=[]))
             if rng.random() < 0.5:
                 groups.append(dict(action=self.action(), names=rng.sample(names_all, 3), nwc=[]))
+        elif kind == "pair_cond":
+            # two (sometimes three) single-condition alternatives of ONE syscall, adjacent, same argument, same operation,
+            # related operands (one bit apart, disjoint masks, sub-mask, neighbours)
+            nm = rng.choice(names_all)
+            arg = rng.randint(0, 5)
+            op = rng.choice(OPS)
+            v1 = self.operand()
+            rel = [v1 ^ (1 << rng.randint(0, 63)), (v1 << 1) & M64, v1 >> 1, ~v1 & M64, v1 & rng.getrandbits(64), v1 | rng.getrandbits(64),
+                   (v1 + 1) & M64, (v1 - 1) & M64, v1 ^ (1 << 32), ((v1 & M32) << 32) | (v1 >> 32), 1 << rng.randint(0, 63)]
+            nwc = [dict(name=nm, conds=[(arg, op, v1)]), dict(name=nm, conds=[(arg, op if rng.random() < 0.8 else rng.choice(OPS), rng.choice(rel))])]
+            if rng.random() < 0.3:
+                nwc.append(dict(name=nm, conds=[(arg, op, rng.choice(rel))]))
+            groups.append(dict(action=self.action(), names=[], nwc=nwc))
+        elif kind == "altmany" and rng.random() < 0.35:
+            # one group with plain names AND one syscall whose alternatives (12..20 lists of six conditions) span more than
+            # 255 instructions, so that early returns are shared between far jumps with other long jumps in between
+            g_names = rng.sample(names_all, rng.randint(1, 4))
+            nm = rng.choice([n for n in names_all if n not in g_names])
+            nwc = [dict(name=nm, conds=[(a, rng.choice(OPS), self.operand()) for a in range(6)]) for _ in range(rng.randint(12, 20))]
+            if rng.random() < 0.5:
+                nm2 = rng.choice(names_all)
+                nwc += [dict(name=nm2, conds=[self.cond() for _ in range(rng.randint(1, 6))]) for _ in range(rng.randint(1, 6))]
+            groups.append(dict(action=self.action(), names=g_names, nwc=nwc))
+            if rng.random() < 0.5:
+                groups.append(dict(action=self.action(), names=rng.sample(names_all, 2), nwc=[]))
         elif kind == "altmany":
             # conditional syscalls with very many alternatives each (one or two conditions per alternative): blocks of
             # 60..130 alternatives straddle the reach of an 8-bit jump offset before and after bridges are inserted
@@ -614,6 +676,14 @@ class PolicyGen:
                         (a, o, v) = rng.choice(cs)
                         if a <= 5:
                             args[a] = argvals(v)
+                    if len(cond_by_nr[nr]) > 1 and rng.random() < 0.35:
+                        # a value built from this list's operand AND a sibling list's operand on the same argument
+                        cs2 = rng.choice(cond_by_nr[nr])
+                        for (a, o, v) in cs:
+                            for (a2, o2, v2) in cs2:
+                                if a == a2 and a <= 5 and v != v2:
+                                    args[a] = rng.choice([v | v2, v & ~v2 & M64, v2 & ~v & M64, v ^ v2, v & v2, v2, ~(v | v2) & M64,
+                                                          (v & ~v2 & M64) & -(v & ~v2 & M64) if v & ~v2 & M64 else v2 & -v2])
                     if unmasked:
                         nr = nr & ~mask & M32       # arguments that satisfy a rule written for a different number
                     elif rng.random() < 0.2:
